@@ -175,4 +175,20 @@ example : Draw.lines (Draw.draw .boxWithUnderline
      "\x1b[34mab\x1b[0m\x1b[1;33m┃\x1b[0m".toList,
      "\x1b[1;33m━━\x1b[0m\x1b[1;33m┻\x1b[0m\x1b[1;33m━━━\x1b[0m".toList, []] := by decide
 
+/-- **Ingest keeps balance**: the CR step of `ingest_line_utf8` (remove the last `\\r` when nothing
+visible follows it; whether what follows is *kept* is generated: `crStepKeepsTail`) leaves the
+terminal in the same final state as the original line, so a line whose own sequences are balanced
+— including ones that close between the CR and the LF, as git writes them for CRLF files — is
+passed through balanced. Side condition: the last CR is not inside an escape sequence. -/
+theorem ingest_keeps_balance (tailZeroWidth : Bool) (line : List Char)
+    (hcr : ∀ a t, splitLastCr line = some (a, t) → (final init a).mode = .ground) :
+    Generated.StyleTables.crStepKeepsTail = true ∧
+    (selfContained (crStep tailZeroWidth line) ↔ selfContained line) := by
+  refine ⟨IngestProofs.keeps_tail, ?_⟩
+  unfold selfContained
+  rw [IngestProofs.crStep_selfContained tailZeroWidth line hcr]
+
+example : crStep true "\x1b[33mwarning\r\x1b[0m".toList = "\x1b[33mwarning\x1b[0m".toList ∧
+    selfContained (crStep true "\x1b[33mwarning\r\x1b[0m".toList) := by decide
+
 end C09
